@@ -2,6 +2,7 @@ import DvidModel.Model.BlockParse
 import DvidModel.Props.C09
 import DvidModel.Props.C15
 import DvidModel.Props.C04
+import DvidModel.Model.Rle
 /-
   C20 — No request can crash the server; malformed ones are rejected harmlessly.
 
@@ -28,7 +29,7 @@ open Dvid Dvid.Block Dvid.BlockParse
 theorem source_facts :
     Gen.blkChecksLabelTableBound = true ∧ Gen.blkRejectsEmptyGrid = true ∧ Gen.blkChecksCountTableBound = true ∧
     Gen.blkChecksIndexTableBound = true ∧ Gen.blkValidateChecksTables = true ∧ Gen.blkStreamValidates = true ∧
-    Gen.blkMinBytes = 24 := by decide
+    Gen.blkMinBytes = 24 ∧ Gen.rleReaderAllocatesAsRead = true := by decide
 
 /-- the tables of a multi-label block are consistent at sub-block `k` -/
 structure SBInBounds (b : Block) (st : Nat × Nat) (n : Nat) : Prop where
@@ -201,6 +202,43 @@ theorem parse_reads_inBounds (d : Array UInt8) (b : Block) (h : parse d = some b
 /-- a concrete well-formed block is received, a damaged one is refused -/
 example : (receive #[1,0,0,0, 1,0,0,0, 1,0,0,0, 1,0,0,0, 7,0,0,0,0,0,0,0]).isSome = true := by decide
 example : (receive #[1,0,0,0, 1,0,0,0, 1,0,0,0, 200,0,0,0, 7,0,0,0,0,0,0,0]).isSome = false := by decide
+
+/-! ### sparse volumes (`dvid.ReadRLEs`): the announced span count cannot make the reader take more than the
+    bytes that arrived justify -/
+
+theorem unmarshalAux_length (n : Nat) (b : Bytes) : (Rle.unmarshalAux n b).length = n := by
+  induction n generalizing b with
+  | zero => rfl
+  | succ n ih => simp [Rle.unmarshalAux, ih]
+
+/-- a sparse volume is only accepted when every announced run is really there -/
+theorem readRLEs_complete (b : Bytes) (rs : List Rle.RLE) (h : Rle.readRLEs b = some rs) :
+    12 + 16 * rs.length ≤ b.length := by
+  unfold Rle.readRLEs at h
+  split at h
+  · cases h
+  split at h
+  · cases h
+  dsimp only at h
+  split at h
+  · cases h
+  simp only [Option.some.injEq] at h
+  subst h
+  rw [unmarshalAux_length]
+  omega
+
+/-- what the reader allocates is bounded by a constant plus the bytes received — whatever count the payload
+    announces (with the fact `rleReaderAllocatesAsRead` false the bound is the announced count: 2^32 runs) -/
+theorem reader_allocation_bounded (b : Bytes) :
+    Rle.readerAllocatedRuns b ≤ Gen.rleReaderMaxPrealloc + 2 * (b.length / 16) := by
+  unfold Rle.readerAllocatedRuns
+  split
+  · omega
+  · simp only [Gen.rleReaderAllocatesAsRead, ↓reduceIte]
+    have h1 : min (Rle.fromLe32u (List.drop 8 b)) Gen.rleReaderMaxPrealloc ≤ Gen.rleReaderMaxPrealloc := Nat.min_le_right _ _
+    have h2 : min (Rle.fromLe32u (List.drop 8 b)) ((b.length - 12) / 16) ≤ (b.length - 12) / 16 := Nat.min_le_right _ _
+    have h3 : (b.length - 12) / 16 ≤ b.length / 16 := Nat.div_le_div_right (by omega)
+    omega
 
 /-- the other byte-level parsers that requests reach are total as well (proved in their own files) -/
 theorem envelope_total (cd : Dvid.Serialize.Codecs) (s : Bytes) (u : Bool) : Dvid.Serialize.deserializeData cd s u ≠ .panic :=
